@@ -1,8 +1,6 @@
 package ocache
 
 import (
-	"fmt"
-	"sort"
 	"strings"
 	"time"
 
@@ -15,7 +13,12 @@ type area struct {
 	r        *corr.Run
 	reported map[string]bool
 	schedN   int
+	disN     int // disagreements recorded (capped so that they never crowd out oracle violations)
+	violN    int
 }
+
+// stop: enough evidence collected (the run goes on after disagreements to find a violating input)
+func (a *area) stop() bool { return a.violN >= 8 || a.r.Issues() >= 16 }
 
 // classify maps a violation of a known shape to the signature of the finding it reproduces.
 func classify(v violation) string {
@@ -38,8 +41,9 @@ func (a *area) report(scn []opSpec, res *runResult) {
 	ops = append(ops, res.lines...)
 	if len(res.disagree) > 0 {
 		key := "dis|" + res.disagree[0] + "|" + scnString(scn)
-		if !a.reported[key] {
+		if !a.reported[key] && a.disN < 4 {
 			a.reported[key] = true
+			a.disN++
 			r.Disagree("C16", res.disagree[0], "model and real cache differ at `"+res.disagree[3]+"`", ops, res.disagree[1], res.disagree[2])
 		}
 	}
@@ -51,6 +55,7 @@ func (a *area) report(scn []opSpec, res *runResult) {
 			continue
 		}
 		a.reported[key] = true
+		a.violN++
 		full := append(append([]string{}, ops...), "-- harness log --")
 		full = append(full, res.log...)
 		r.Violate("C16", sig, "ocache.oracle."+v.prop, v.msg, full)
@@ -87,7 +92,7 @@ func (a *area) dfs(scn []opSpec, maxRuns int, prune bool, kind string) (runs int
 	stack := [][]int{{}}
 	visited := map[string]bool{}
 	for len(stack) > 0 {
-		if runs >= maxRuns || !a.r.TimeLeft() || a.r.Issues() >= 12 {
+		if runs >= maxRuns || !a.r.TimeLeft() || a.stop() {
 			return runs, false
 		}
 		prefix := stack[len(stack)-1]
@@ -213,7 +218,7 @@ func (a *area) runFamily(f family, share time.Duration) {
 	end := time.Now().Add(share)
 	done, complete := 0, 0
 	for _, scn := range scns {
-		if time.Now().After(end) || !r.TimeLeft() || r.Issues() >= 12 {
+		if time.Now().After(end) || !r.TimeLeft() || a.stop() {
 			break
 		}
 		_, c := a.dfs(scn, f.cap, f.prune, f.name)
@@ -275,17 +280,11 @@ func Run(r *corr.Run) {
 		a.runFamily(f.f, time.Duration(float64(total)*f.share))
 	}
 	// random schedules of larger scenarios (4..10 threads), every TryClose verdict kind
-	for r.TimeLeft() && r.Issues() < 12 {
+	for r.TimeLeft() && !a.stop() {
 		n := 4 + r.Intn(7)
 		scn := a.randomScenario(n)
 		for k := 0; k < 20 && r.TimeLeft(); k++ {
 			a.one(scn, func(d int, en []action) int { return r.Intn(len(en)) }, true, "random")
 		}
 	}
-	var keys []string
-	for k := range r.Res.Counters {
-		keys = append(keys, k)
-	}
-	sort.Strings(keys)
-	_ = fmt.Sprint(keys)
 }
